@@ -121,4 +121,28 @@ theorem timed_progress6 (tl : Bool) (alt : Alt) (sched : List (Move (proto6 tl))
   obtain ⟨w', h1, h2, h3⟩ := timed_progress (iface6 tl) Conn6.cfg_ok (sim6 tl) (loct6 tl) alt hO
   exact ⟨w', h1, h3.quiescent h2⟩
 
+/-- **token agreement (0.6)**: in every reachable world an online endpoint and its pending-or-online
+peer hold the same token (so neither drops the other's datagrams) -/
+theorem tokens_agree6 (tl : Bool) (sched : List (Move (proto6 tl))) (w : World (proto6 tl))
+    (hrun : run (World.init (proto6 tl)) sched = some w) (s : Side) {t1 : Option Nat} {o1 : Online}
+    (h1 : (w.get s).conn.state = .online t1 o1) {t2 : Option Nat}
+    (h2 : stTok (w.get s.other).conn.state = some t2) : t1 = t2 := by
+  have hl := run_loc (loc6 tl) sched _ w (init_loc (loc6 tl)) hrun
+  have hg := agree6_run sched _ w (agree6_init tl) hrun
+  cases s with
+  | a => exact hg.1.agree hg.2 hl.1.1 hl.2.1 h1 h2
+  | b => exact hg.2.agree hg.1 hl.2.1 hl.1.1 h1 h2
+
+/-- **timer bounds (0.6)**: in every reachable world, while a deadline is reported the send timer is
+due within 500 ms, and every retransmission timer of an online connection within 1 s -/
+theorem timers_due6 (tl : Bool) (sched : List (Move (proto6 tl))) (w : World (proto6 tl))
+    (hrun : run (World.init (proto6 tl)) sched = some w) : Timed w.now w.a.conn ∧ Timed w.now w.b.conn :=
+  run_loct (loct6 tl) sched _ w (init_loct (loct6 tl)) hrun
+
+example : admissible (World.init (proto6 false)) (busy6 false) = true := by decide +kernel
+example : ((run (World.init (proto6 false)) (busy6 false)).map fun w =>
+    ((online w.a.conn).isSome && (online w.b.conn).isSome, w.settled)) = some (true, false) := by decide +kernel
+example : (((run (World.init (proto6 false)) (busy6 false)).bind (timedRounds .exact 4)).map World.settled) = some true := by
+  decide +kernel
+
 end Tw.NetSim.P6
